@@ -30,12 +30,17 @@ package proof
 //@ spec vn(b Bz) Int = ext("binary.Varint#1", b)
 //@ spec vv(b Bz) Int = ext("binary.Varint", b)
 //@ spec off2(p Bz) Int = vn(p) + vn(bzslice(p, vn(p), len(p)))
+//@ spec off3(p Bz) Int = off2(p) + vn(bzslice(p, off2(p), len(p)))
 //@ func GetMerklePaths
 //@ may_panic
 //@ ensures len(result) == len(iavlEp.Path)
 //@ ensures forall j :: 0 <= j && j < len(result) ==> result[j].SubtreeHeight == wrapu32(vv(iavlEp.Path[j].Prefix))
 //@ ensures forall j :: 0 <= j && j < len(result) ==> result[j].SubtreeSize == wrapu64(vv(bzslice(iavlEp.Path[j].Prefix, vn(iavlEp.Path[j].Prefix), len(iavlEp.Path[j].Prefix))))
 //@ ensures forall j :: 0 <= j && j < len(result) ==> result[j].SubtreeVersion == wrapu64(vv(bzslice(iavlEp.Path[j].Prefix, off2(iavlEp.Path[j].Prefix), len(iavlEp.Path[j].Prefix))))
+// ... and on which side the proven subtree sits: the sibling hash is in the PREFIX (data on the right) exactly when the prefix
+// is longer than the three varints plus the length byte; otherwise the sibling is in the suffix (data on the left)
+//@ ensures forall j :: 0 <= j && j < len(result) ==> (result[j].IsDataOnRight <==> off3(iavlEp.Path[j].Prefix) + 1 != len(iavlEp.Path[j].Prefix))
+//@ loop 0: invariant forall j :: 0 <= j && j < #i ==> (paths[j].IsDataOnRight <==> off3(iavlEp.Path[j].Prefix) + 1 != len(iavlEp.Path[j].Prefix))
 //@ loop 0: invariant len(paths) == #i
 //@ loop 0: invariant forall j :: 0 <= j && j < #i ==> paths[j].SubtreeHeight == wrapu32(vv(iavlEp.Path[j].Prefix))
 //@ loop 0: invariant forall j :: 0 <= j && j < #i ==> paths[j].SubtreeSize == wrapu64(vv(bzslice(iavlEp.Path[j].Prefix, vn(iavlEp.Path[j].Prefix), len(iavlEp.Path[j].Prefix))))
